@@ -166,20 +166,27 @@ class Impl:
         return ["instrs", views], sub
 
     def execute(self, sub, bound):
-        """Run the assembled subroutine on the real Executor.  -> observation dict"""
+        return self.execute_seq([sub], bound)[0]
+
+    def execute_seq(self, subs, bound):
+        """Run the assembled subroutines one after the other on ONE application of a fresh real Executor
+        (registers, arrays and shared memory persist).  -> one observation per executed subroutine; stops
+        after the first one that does not halt."""
         Executor, RN = self.Executor, self.encoding.RegisterName
 
         class FuelOut(Exception):
             pass
 
+        class Blocked(Exception):
+            pass
+
         class Bounded(Executor):
             def __init__(s2):
                 super().__init__(name="asmcheck")
-                s2.steps, s2.fault_line, s2.out_of_fuel = 0, None, False
+                s2.steps, s2.fault_line = 0, None
 
             def _execute_command(s2, subroutine_id, command):
                 if s2.steps >= bound:
-                    s2.out_of_fuel = True
                     raise FuelOut()
                 s2.steps += 1
                 yield from super()._execute_command(subroutine_id, command)
@@ -188,34 +195,49 @@ class Impl:
                 s2.fault_line = prog_counter
                 raise exc
 
+            def _do_wait(s2):
+                # the base class would spin forever waiting for the network stack
+                raise Blocked()
+
         self.SMM.reset_memories()
         ex = Bounded()
         ex._logger.disabled = True
         ex.init_new_application(app_id=0, max_qubits=5)
-        kind = 0
-        try:
-            for _ in ex.execute_subroutine(sub):
-                pass
-        except FuelOut:
-            kind = 2
-        except Exception:
-            kind = 1
-        line = 0 if kind == 0 else ex.fault_line
-        regs = []
-        for rn in RN:
-            for idx, val in sorted(ex._registers[0][rn]._register.items()):
-                if val is not None:
-                    regs.append([rn.value, idx, val])
-        regs.sort()
-        arrs = sorted([a, list(l)] for a, l in ex._app_arrays[0]._arrays.items())
-        sm = ex._shared_memories[0]
-        shregs = []
-        for rn in RN:
-            for idx, val in sorted(sm._registers[rn]._register.items()):
-                if val is not None:
-                    shregs.append([rn.value, idx, val])
-        sharrs = sorted([a, list(l)] for a, l in sm._arrays._arrays.items())
-        return dict(kind=kind, line=line, regs=regs, arr=arrs, shreg=shregs, sharr=sharrs, steps=ex.steps)
+        out = []
+        for sub in subs:
+            ex.steps, ex.fault_line = 0, None
+            kind = 0
+            try:
+                for _ in ex.execute_subroutine(sub):
+                    pass
+            except FuelOut:
+                kind = 2
+            except Blocked:
+                kind = 3
+            except Exception:
+                kind = 1
+            line = 0 if kind == 0 else ex.fault_line
+            regs = []
+            for rn in RN:
+                for idx, val in sorted(ex._registers[0][rn]._register.items()):
+                    if val is not None:
+                        regs.append([rn.value, idx, val])
+            regs.sort()
+            app_arrays = ex._app_arrays[0]._arrays
+            arrs = sorted([a, list(l)] for a, l in app_arrays.items())
+            sm = ex._shared_memories[0]
+            shregs = []
+            for rn in RN:
+                for idx, val in sorted(sm._registers[rn]._register.items()):
+                    if val is not None:
+                        shregs.append([rn.value, idx, val])
+            sharrs = sorted([a, list(l)] for a, l in sm._arrays._arrays.items())
+            alias = sorted(a for a, l in sm._arrays._arrays.items() if app_arrays.get(a) is l)
+            out.append(dict(kind=kind, line=line, regs=regs, arr=arrs, shreg=shregs, sharr=sharrs, alias=alias,
+                            steps=ex.steps))
+            if kind != 0:
+                break
+        return out
 
 
 def prepare(ctx):
@@ -415,7 +437,8 @@ def coq_obs(o):
     arr = lst(f"({z(a)}, {lst(coq_oz(v) for v in l)})" for a, l in o["arr"])
     shreg = lst(f"(({z(b)}, {z(i)}), {z(v)})" for b, i, v in o["shreg"])
     sharr = lst(f"({z(a)}, {lst(coq_oz(v) for v in l)})" for a, l in o["sharr"])
-    return f"(Some (mkObs {z(o['kind'])} {z(o['line'])} {regs} {arr} {shreg} {sharr}))"
+    alias = lst(z(a) for a in o.get("alias", []))
+    return f"(Some (mkObs {z(o['kind'])} {z(o['line'])} {regs} {arr} {shreg} {sharr} {alias}))"
 
 
 def coq_acase(c):
@@ -467,6 +490,19 @@ def write_acase_file(path, fname, cases):
         f.write(CASE_HEADER)
         f.write("Definition cases : list acase :=\n [" + ";\n  ".join(coq_acase(c) for c in cases) + "].\n")
         f.write(f"Eval vm_compute in (codes (check_acase gen_params gen_banks gen_ginstrs gen_{fname}) cases).\n")
+
+
+def write_scase_file(path, fname, cases):
+    """cases: [dict(steps=[dict(prog, out, obs)], fuel)]"""
+    with open(path, "w") as f:
+        f.write(CASE_HEADER)
+        items = []
+        for c in cases:
+            steps = lst((f"mkSS {lst(coq_cmd(x) for x in st['prog'])} {coq_outcome(st['out'])} {coq_obs(st['obs'])}"
+                         for st in c["steps"]), sep=";\n    ")
+            items.append(steps)
+        f.write("Definition cases : list (list sstep) :=\n [" + ";\n  ".join(items) + "].\n")
+        f.write(f"Eval vm_compute in (codes (check_scase gen_params gen_{fname} {cases[0]['fuel'] if cases else 0}%nat) cases).\n")
 
 
 def coq_pcase(c):
